@@ -2,6 +2,6 @@ from propcfg.common import *
 from propcfg.tmplcommon import *
 
 CFG = dict(TMPL_C05)
-CFG["proof_modules"] = ["SafeHtml.Proofs.ApiFrames"]
-CFG["level_text"] = CFG["level_text"] + " Proofs/ApiFrames.lean lifts stickiness to ALL operations on reachable worlds (C05_failed_sticky_all_ops, C05_failed_forever: after any sequence of operations on any handles and sets a failed template still returns its error and writes nothing), with the exact exclusions `t.New(name)` on the failed template's own name (= known finding new-after-exec of C07) and Execute through a handle bound to a different object of the same name (believed unreachable; needs a handle-table invariant)."
-CFG["level_note"] = "Proved for the model incl. closure under arbitrary interleavings (Proofs/ApiFrames.lean) up to the two stated exclusions; the tie to the code is the correspondence + oracle."
+CFG["proof_modules"] = ["SafeHtml.Proofs.ApiFrames", "SafeHtml.Proofs.NoPanic"]
+CFG["level_text"] = CFG["level_text"] + " Proofs/ApiFrames.lean lifts stickiness to ALL operations on reachable worlds (C05_failed_sticky_all_ops, C05_failed_forever: after any sequence of operations on any handles and sets a failed template still returns its error and writes nothing), with the exact exclusions `t.New(name)` on the failed template's own name (= known finding new-after-exec of C07) ; the second exclusion (Execute through a handle bound to a different object of the same name) is removed for every world reachable from an empty handle table by the handle-table invariant of Proofs/NoPanic.lean (C05_failed_sticky_reachable)."
+CFG["level_note"] = "Proved for the model incl. closure under arbitrary interleavings (Proofs/ApiFrames.lean) up to the one stated exclusion (t.New(name) on the failed name); the tie to the code is the correspondence + oracle."
